@@ -172,8 +172,16 @@ def gen_relative_program(rnd, base):
             continue
         if isinstance(item, tuple) and item[0] == "INSN":
             def target():
-                shape = rnd.choice(["label", "label+k", "label-k", "dot+k", "dot-k", "abs", "abs", "local"] if scope_locals else
-                                   ["label", "label+k", "label-k", "dot+k", "dot-k", "abs", "abs"])
+                shape = rnd.choice(["label", "label+k", "label-k", "dot+k", "dot-k", "abs", "abs", "local", "dotcalc"] if scope_locals else
+                                   ["label", "label+k", "label-k", "dot+k", "dot-k", "abs", "abs", "dotcalc", "labelcalc"])
+                if shape == "dotcalc":
+                    # the statement's own address through operators whose value the assembler caches on the operator token
+                    inner = rnd.choice([("bin", "*", ("bin", "/", ("dot",), apm.num(2)), apm.num(2)),
+                                        ("bin", "-", ("dot",), ("bin", "%", ("dot",), apm.num(2))),
+                                        ("grp", ("bin", "<<", ("grp", ("bin", ">>", ("dot",), apm.num(1))), apm.num(1)))])
+                    return shape, ("bin", "+", inner, apm.num(rnd.randrange(0, 300), "d"))
+                if shape == "labelcalc":
+                    return shape, ("bin", "+", ("bin", "*", ("bin", "/", ("sym", rnd.choice(labels)), apm.num(2)), apm.num(2)), apm.num(2 * rnd.randrange(0, 60), "d"))
                 if shape == "label":
                     return shape, ("sym", rnd.choice(labels))
                 if shape == "label+k":
@@ -218,13 +226,17 @@ def gen_relative_program(rnd, base):
                 st = apm.insn("mul", ("rel", t1), ("reg", 2)); tag = f"pos0|ext0|{t1s}"
             else:
                 st = apm.insn("mov", ("abs", apm.num(rnd.randrange(0x10000))), ("rel", t1)); tag = f"pos1|ext1abs|{t1s}"
-            if rnd.random() < 0.15 and "local" not in (t1s, t2s):
+            if rnd.random() < (0.5 if "dotcalc" in (t1s, t2s) else 0.15) and "local" not in (t1s, t2s):
                 # copies of the statement: each one is at its own address, so each displacement differs
                 body = [st] + ([apm.data(".word", apm.num(rnd.randrange(0x10000)))] if rnd.random() < 0.5 else [])
                 st = apm.repeat(apm.num(rnd.choice([2, 3, 5])), body)
                 tag += "|repeated"
             out.append(st)
             tags.append(tag)
+            if scope_locals and rnd.random() < 0.25:
+                # an exported constant in the middle of a local-label block: an assignment is no label, the block goes on
+                out.append(apm.assign(f"gq{len(out)}", apm.num(rnd.randrange(0x10000)), extern=rnd.random() < 0.8))
+                tags[-1] += "|assign-in-local-block"
             continue
         # an ordinary label ends the local scope
         if item.k == "nop" and item.labels and item.labels[0][1] == "label":
